@@ -26,18 +26,20 @@ const (
 	faultPanicRuntime
 )
 
+// all three are atomics: a detached SPIN call may still be running when the
+// next case re-arms the plan
 var fault struct {
 	count  atomic.Int64
-	failAt int64
-	mode   int32
+	failAt atomic.Int64
+	mode   atomic.Int32
 }
 
 var errInjected = errors.New("injected fault (VFAIL)")
 
 func vfail(_ *genql.Query, _ genql.Map, _ *genql.FunctionOptions, args []any) (any, error) {
 	n := fault.count.Add(1)
-	if fault.failAt == n {
-		switch fault.mode {
+	if fault.failAt.Load() == n {
+		switch fault.mode.Load() {
 		case faultError:
 			return nil, errInjected
 		case faultPanicErr:
@@ -63,8 +65,8 @@ func init() {
 // (k = 0: never). Must be called while no query is running.
 func armFault(k int, mode int32) {
 	fault.count.Store(0)
-	fault.failAt = int64(k)
-	fault.mode = mode
+	fault.failAt.Store(int64(k))
+	fault.mode.Store(mode)
 }
 
 func faultCount() int { return int(fault.count.Load()) }
